@@ -658,7 +658,13 @@ class ListItem(BlockToken):
             if blanks > 1:
                 parse_buffer = tokenizer.ParseBuffer()
                 parse_buffer.loose = True
-                next_marker = cls.parse_marker(next_line) if next_line is not None else None
+                if next_line is not None and not ThematicBreak.start(next_line):
+                    # ("* * *" is a thematic break, not an item)
+                    next_marker = cls.parse_marker(next_line)
+                if next_marker is None or not List.same_marker_type(leader, next_marker[2]):
+                    # the list ends with this item: the blank lines after it separate
+                    # the list from what follows, in whatever contains the list
+                    lines.set_pos(lines.get_pos() - (blanks - 1))
                 return (parse_buffer, indentation, prepend, leader, start_line), next_marker
         else:
             line_buffer.append(content)
